@@ -153,6 +153,14 @@ func routScenario(cap_, nEmit, nMsg int) scenario {
 
 // ---------------------------------------------------------------- R-in: port -> relay -> midiEventsIn
 
+// inMsg: what the port delivers - channel messages, and as the last one a one-byte system real-time message (Start)
+func inMsg(i, n int) []byte {
+	if n >= 3 && i == n-1 {
+		return []byte{0xFA}
+	}
+	return []byte(msg(1, i))
+}
+
 func rinScenario(cap_, nMsg int) scenario {
 	return scenario{
 		name: fmt.Sprintf("R-in cap=%d msgs=%d", cap_, nMsg),
@@ -178,7 +186,7 @@ func rinScenario(cap_, nMsg int) scenario {
 			})
 			vsched.Go("port-feeder", func() {
 				for i := 0; i < nMsg; i++ {
-					vsched.Out[[]byte](pi.ch).Send([]byte(msg(1, i)))
+					vsched.Out[[]byte](pi.ch).Send(inMsg(i, nMsg))
 				}
 			})
 			finisher(func() {
@@ -196,7 +204,7 @@ func rinScenario(cap_, nMsg int) scenario {
 			}
 			var want []string
 			for i := 0; i < nMsg; i++ {
-				want = append(want, fmt.Sprintf("% x", []byte(msg(1, i))))
+				want = append(want, fmt.Sprintf("% x", inMsg(i, nMsg)))
 			}
 			if len(vs) == 0 && strings.Join(got, ",") != strings.Join(want, ",") {
 				vs = append(vs, vsched.Violation{"input-not-in-order-exactly-once", "R-in", fmt.Sprintf("the port delivered %v, midiEventsIn carried %v", want, got)})
